@@ -28,10 +28,11 @@ def wfName (n : Str) : Bool :=
     characters separated by single spaces -/
 def wfFree (s : Str) : Bool := (splitChar ' ' s []).all wfToken
 
+/-- `key` or `key=value`; the value may be empty (`key=`) -/
 def wfDictEntry (kv : Str × Option Str) : Bool :=
   wfListToken kv.1 && (match kv.2 with
     | none => true
-    | some v => wfToken v)
+    | some v => v.all cleanChar)
 
 def nodupKeys {β : Type} : List (Str × β) → Bool
   | [] => true
@@ -53,21 +54,6 @@ def wfAnnotation (a : Str × Opts) : Bool := wfName a.1 && wfOpts a.1 a.2
 
 /-- a well-formed annotation list: every annotation well-formed, names distinct -/
 def wfAnns (a : Anns) : Bool := a.all wfAnnotation && nodupKeys a
-
-/-! ### the same grammar including empty option values (`key=`), which the parser accepts silently -/
-
-def wfDictEntryE (kv : Str × Option Str) : Bool :=
-  wfListToken kv.1 && (match kv.2 with
-    | none => true
-    | some v => v.all cleanChar)
-
-def wfOptsE (n : Str) : Opts → Bool
-  | .dict d => !isListAnn n && isDictAnn n && d.all wfDictEntryE && nodupKeys d
-  | o => wfOpts n o
-
-def wfAnnotationE (a : Str × Opts) : Bool := wfName a.1 && wfOptsE a.1 a.2
-
-def wfAnnsE (a : Anns) : Bool := a.all wfAnnotationE && nodupKeys a
 
 /-- `render` for annotation fields is the project's own writer -/
 def renderAnns (a : Anns) : Str := serializeAnnotations a
